@@ -260,6 +260,17 @@ func newStatefulSetPod(set *apps.StatefulSet, ordinal int) *v1.Pod {
 	return pod
 }
 
+// getRollingUpdatePartition returns the partition of set's rolling update strategy. The CRD schema does not validate
+// the update strategy and the controller does not default it, so a missing rollingUpdate block, a block without a
+// partition and a negative partition all reach this point; each of them means 0.
+func getRollingUpdatePartition(set *apps.StatefulSet) int {
+	rollingUpdate := set.Spec.UpdateStrategy.RollingUpdate
+	if rollingUpdate == nil || rollingUpdate.Partition == nil || *rollingUpdate.Partition < 0 {
+		return 0
+	}
+	return int(*rollingUpdate.Partition)
+}
+
 // newVersionedStatefulSetPod creates a new Pod for a StatefulSet. currentSet is the representation of the set at the
 // current revision. updateSet is the representation of the set at the updateRevision. currentRevision is the name of
 // the current revision. updateRevision is the name of the update revision. ordinal is the ordinal of the Pod. If the
@@ -267,7 +278,7 @@ func newStatefulSetPod(set *apps.StatefulSet, ordinal int) *v1.Pod {
 func newVersionedStatefulSetPod(currentSet, updateSet *apps.StatefulSet, currentRevision, updateRevision string, ordinal int) *v1.Pod {
 	if currentSet.Spec.UpdateStrategy.Type == apps.RollingUpdateStatefulSetStrategyType &&
 		(currentSet.Spec.UpdateStrategy.RollingUpdate == nil && ordinal < int(currentSet.Status.CurrentReplicas)) ||
-		(currentSet.Spec.UpdateStrategy.RollingUpdate != nil && ordinal < int(*currentSet.Spec.UpdateStrategy.RollingUpdate.Partition)) {
+		(currentSet.Spec.UpdateStrategy.RollingUpdate != nil && ordinal < getRollingUpdatePartition(currentSet)) {
 		pod := newStatefulSetPod(currentSet, ordinal)
 		setPodRevision(pod, currentRevision)
 		return pod
